@@ -144,6 +144,12 @@ def evaluation_order_family():
         out.append("stel g = 7; functie f() { g = g + 3; g } functie h(x) { x %s f() } [h(g), g]" % op)
         out.append("stel g = 7; functie f() { g = g + 3; 2 } stel a = [g, g %s f(), g]; a" % op)
     for op in ("&&", "||"):
+        # both operands are evaluated wherever the operator stands: as the condition of als / anders als / zolang, under !, as an argument
+        for l in ("ja", "nee"):
+            out.append("functie p(x, r) { print(\"p {}\", x); r }; stel t = 0; als p(1, %s) %s p(2, ja) { t = 1 } anders als p(3, %s) %s p(4, nee) { t = 2 } anders { t = 3 }; t" % (l, op, l, op))
+            out.append("functie p(x, r) { print(\"p {}\", x); r }; stel k = 0; zolang p(k, %s) %s p(k + 10, k < 2) { k += 1; als k > 3 { stop } }; k" % (l, op))
+            out.append("functie p(x, r) { print(\"p {}\", x); r }; [!(p(1, %s) %s p(2, nee)), bool(p(3, %s) %s p(4, ja))]" % (l, op, l, op))
+            out.append("stel n = 0; functie tel(r) { n = n + 1; r }; als tel(%s) %s tel(ja) { n = n + 10 }; als %s %s 1 { 0 }; n" % (l, op, l, op))
         out.append("stel g = ja; functie f() { g = !g; g } [g %s f(), g]" % op)
         out.append("stel g = ja; functie f() { g = !g; g } [f() %s g, g]" % op)
     out += [
@@ -773,6 +779,9 @@ def alias_overwrite_family(quick):
         out.append((tag + ":loop", "functie niets3() { 0 }; stel w = [%s, %s]; stel i = 0; zolang i < 9 { i += 1; stel tmp = w[0]; w[0] = w[1]; w[1] = tmp; niets3() }; [w[0], w[1]]" % (src, src2), [pv2, pv]))
     out.append(("alias:self-insert", "stel s = \"abc\"; s[1] = s; stel t = \"maandag\"; stel u = t; t[-1] = u; stel v = \"abc\"; stel w = \"abc\"; v[1] = w; [s, t, u, v, s == v]", ["aabcc", "maandamaandag", "maandamaandag", "aabcc", True]))
     out.append(("alias:self-insert-array", "stel a = [1, 2, 3]; stel b = a; a[1] = lengte(b); a[-1] = a[0]; [a, b]", [[1, 3, 1], [1, 3, 1]]))
+    out.append(("alias:many-references", "functie niets() { 0 }; stel een = float(0); stel veel = [een, een, een, een, een, een, een, een]; stel tekst = string(7); stel veel2 = [tekst, tekst, tekst, tekst, tekst]; stel totaal = float(100); stel naam = string(12); niets(); stel vers = 3.5 + 3.5; [totaal, naam, vers, veel[7], veel2[4]]", [100.0, "12", 7.0, 0.0, "7"]))
+    out.append(("alias:one-char-target", "stel t = \"x\"; stel nieuw = \" <-> \"; t[0] = nieuw; stel l = [\"Zoë\", \"q\"]; stel doel = l[1]; doel[0] = l[0]; [t, nieuw, lengte(nieuw), l[0], doel]", [" <-> ", " <-> ", 5, "Zoë", "Zoë"]))
+    out.append(("alias:one-char-target-function", "functie zet(doel, bron) { doel[0] = bron; lengte(bron) } stel d = \"y\"; stel b = \"euro\"; [zet(d, b), d, b]", [4, "euro", "euro"]))
     out.append(("alias:char", "stel s = \"banaan\"; stel c = s[1]; c[0] = \"X\"; stel q = s[3]; [s, c, s[1], q, lengte(q)]", ["banaan", "X", "a", "a", 1]))
     out.append(("alias:char2", "stel s = \"aaa\"; stel c = s[0]; stel d = s[0]; c[0] = \"oe\"; [c, d, s, s[-1]]", ["oe", "a", "aaa", "a"]))
     out.append(("alias:type-string", "stel t = type(1); stel u = type(2); t[0] = \"X\"; [t, u, type(3)]", ["Xnt", "int", "int"]))
@@ -882,6 +891,12 @@ def nested_names_family(quick):
                     inner = "%s + 1" % call if ik == "use" else "stel x = 7; x + 1"
                     out.append("%s functie buiten(%s) { %s functie() { %s }() }; [buiten(%s), %s]" % (g, par, decl, inner, arg, call))
                     out.append("%s functie buiten(%s) { %s stel r = functie() { %s }(); r + 1 }; [buiten(%s), %s]" % (g, par, decl, inner, arg, call))
+    # textually identical function literals at places where a free name means different things; block-scoped globals that only
+    # functions written in the block use
+    out += ["stel x = 1; stel f = functie() { x }; { stel x = 2; stel g = functie() { x }; [f(), g()] }", "stel x = 1; stel f = functie() { x }; stel x = 100; stel g = functie() { x }; [f(), g(), x]",
+            "{ stel grens = 10; functie test(v) { v < grens }; [test(1), test(100)] }", "stel teller = 1000; { stel teller = 0; functie op() { teller = teller + 2; teller }; print(\"in het blok: {}\", op()) }; teller",
+            "als ja { stel drempel = 5; stel hulp = 1; functie boven(v) { v > drempel }; [boven(9), boven(1), hulp] }", "stel i = 0; stel r = 0; zolang i < 2 { i += 1; stel stap = 10; functie plus(v) { v + stap }; r = plus(r) }; r",
+            "functie buiten() { stel a = functie(n) { n + 1 }; stel b = functie(n) { n + 1 }; [a(1), b(2)] }; buiten()"]
     return out
 
 
@@ -1015,6 +1030,8 @@ def collect_store_collect_family(quick):
         out.append((tag + ":literal-in-array", "stel l = [\"abc\", \"abc\"]; stel e = l[0]; e[0] = \"X\"; stel f = l[1]; [e, f, l[0], \"abc\"]", ["Xbc", "abc", "Xbc", "abc"]))
         out.append((tag + ":literal-as-branch-value", "functie kies(c) { als c { \"abc\" } anders { \"lus\" } }; stel a = kies(ja); a[0] = \"X\"; stel b = kies(ja); stel i = 0; stel w = \"\"; zolang i < 2 { i += 1; w = als i > 0 { \"lus\" } anders { \"\" }; w[2] = \"x\" }; [a, b, w, kies(nee)]", ["Xbc", "abc", "lux", "lus"]))
         out.append((tag + ":literal-returned-from-loop", "functie zoek() { stel i = 0; zolang i < 3 { i += 1; als i == 2 { antwoord \"abc\" } } \"niets\" }; stel a = zoek(); a[1] = \"Q\"; [a, zoek()]", ["aQc", "abc"]))
+        out.append((tag + ":final-value", "functie niets() { 0 }; stel l = [0.5, \"graden\", [1.5]]; niets(); l[0] = %s; stel in = l[2]; in[0] = %s; niets(); l" % (src, src), [pv, "graden", [pv]]))
+        out.append((tag + ":final-value-from-function", "functie maak() { stel l = [0.5, [1.5]]; l[0] = %s; stel in = l[1]; in[0] = %s; l }; maak()" % (src, src), [pv, [pv]]))
         out.append((tag + ":literal-in-loop", "functie streep(n) { stel s = \"....\"; s[n] = \"#\"; s }; [streep(0), streep(1), streep(2), \"....\"]", ["#...", ".#..", "..#.", "...."]))
     return out
 
